@@ -71,6 +71,59 @@ var semanticEdits = []string{"literal-value", "call-alias", "add-out-param", "re
 	"top-arg-value", "map-toggle-element", "struct-field-add"}
 var cosmeticEdits = []string{"reformat", "comments", "include-structure", "filetype-rename", "reorder-declarations", "whitespace"}
 
+// wildcardTwin finds the first wildcard binding `* = CALL` (in a call or in a
+// return) of a reachable pipeline, adds a twin of CALL named ZZTWIN right
+// after it and, if repoint is set, makes the wildcard take its values from the
+// twin. Returns false if the program has no such binding.
+func wildcardTwin(p *pgen.Program, repoint bool) bool {
+	pipes, _ := reachable(p)
+	for _, pl := range pipes {
+		var star *pgen.Binding
+		for _, c := range pl.Calls {
+			for bi := range c.Binds {
+				if b := &c.Binds[bi]; b.Id == "*" && b.Exp != nil && b.Exp.Kind == pgen.ERefCall && len(b.Exp.Path) == 0 && star == nil {
+					star = b
+				}
+			}
+		}
+		for bi := range pl.Ret {
+			if b := &pl.Ret[bi]; b.Id == "*" && b.Exp != nil && b.Exp.Kind == pgen.ERefCall && len(b.Exp.Path) == 0 && star == nil {
+				star = b
+			}
+		}
+		if star == nil {
+			continue
+		}
+		for ci, c := range pl.Calls {
+			if c.Name() != star.Exp.Id {
+				continue
+			}
+			tw := *c
+			tw.Alias = "ZZTWIN"
+			tw.Binds = nil
+			changed := false
+			for _, b := range c.Binds {
+				nb := b
+				if b.Exp != nil && b.Exp.Kind == pgen.EInt && !changed {
+					e := *b.Exp
+					e.I += 17
+					nb.Exp = &e
+					changed = true
+				}
+				tw.Binds = append(tw.Binds, nb)
+			}
+			calls := append([]*pgen.Call{}, pl.Calls[:ci+1]...)
+			calls = append(calls, &tw)
+			pl.Calls = append(calls, pl.Calls[ci+1:]...)
+			if repoint {
+				star.Exp = &pgen.Exp{Kind: pgen.ERefCall, Id: "ZZTWIN"}
+			}
+			return true
+		}
+	}
+	return false
+}
+
 // applySemantic mutates p; returns false if the edit is not applicable.
 func applySemantic(p *pgen.Program, op string, r *rand.Rand) bool {
 	pipes, stages := reachable(p)
@@ -534,6 +587,25 @@ func init() {
 				inputs = append(inputs, b)
 				metas = append(metas, meta{label, cosmetic, inp, seed})
 			}
+		}
+		// wildcard bindings (`* = CALL` in a call or a return): both versions get
+		// a twin of CALL (same callee, own alias, a literal argument changed where
+		// there is one); the edit re-points the wildcard to the twin, so only
+		// what the wildcard supplies differs
+		for i := 0; i < nProg*3; i++ {
+			seed := c.Seed*389 + 7000000 + int64(i)
+			cfg := c15Config()
+			cfg.PWildcard = 60
+			base := pgen.Generate(seed, cfg)
+			if !wildcardTwin(base, false) {
+				continue
+			}
+			edited := pgen.Generate(seed, cfg)
+			wildcardTwin(edited, true)
+			inp := c15Input{A: base.Print(), B: edited.Print()}
+			b, _ := json.Marshal(inp)
+			inputs = append(inputs, b)
+			metas = append(metas, meta{"wildcard-repoint", false, inp, seed})
 		}
 		results := vf.RunBatches(c, "c15", inputs, 200, 60*time.Second, 4096)
 		byLabel := map[string]int{}
